@@ -70,6 +70,18 @@ def shard(ctx):
                 rec.violation({'kind': 'call_fails_after_ite_with_variable_first_seen_in_inlined_comparisons'},
                               {'program': text, 'query': q, 'expected': '[2,a,b]', 'observed': arith.show_obs(o)[:200],
                                'jobs': [{'op': 'load', 'module': 'user', 'text': text}, {'op': 'run', 'goal': q + ' .', 'limit': 2, 'pred': 'runr'}]})
+    if ctx.shard == 2:
+        # fixed probe of the shape behind known finding K43
+        text = ('c07_k43p(1, f(a)).\nc07_k43p(a, b).\nc07_k43p(1, a).\nc07_k43q(c).\n'
+                'c07_k43(A) :- ( ( c07_k43p(f(B), A) -> c07_k43q(A) ; c07_k43q(_) ) -> c07_k43p(A, B) ; true ).\n')
+        if arith.load_clauses(rec, w, text):
+            q = 'findall(X, c07_k43(X), R)'
+            o = arith.run_goal(w, q, var='R')
+            rec.case('with-ite', ('k43-probe',))
+            if o != ('val', mklist([mkint(1), mkatom('a'), mkint(1)])):
+                rec.violation({'kind': 'variable_first_seen_in_structure_of_failed_condition_is_dangling'},
+                              {'program': text, 'query': q, 'expected': '[1,a,1]', 'observed': arith.show_obs(o)[:200],
+                               'jobs': [{'op': 'load', 'module': 'user', 'text': text}, {'op': 'run', 'goal': q + ' .', 'limit': 2, 'pred': 'runr'}]})
     for i in range(ctx.params['n']):
         prog, sigs = progen.rprogram(rng, cuts=True, lib=True)
         prefix = 'c07_%d_%d_' % (ctx.shard, i)
